@@ -71,6 +71,27 @@ Proof. intros. now apply resolve_congr. Qed.
 Lemma sweep_all_red : forallb (sweep le_row bear_row rep_class known) specs_red = true.
 Proof. vm_compute. reflexivity. Qed.
 
+(* second level (closure under the rules' own dispatched calls): every instance of every call template of the
+   hand-written call graph is an admissible call of the callee's lattice -- hence selects a unique rule or is a
+   committed exception *)
+Lemma templates_closed : forallb (tmpl_ok specs_full) templates = true.
+Proof. vm_compute. reflexivity. Qed.
+
+Theorem second_level_total : forall t, In t templates ->
+  exists fs, In fs specs_full /\ fname fs = tcallee t /\
+  forall req opt, In req (prod (treq t)) -> In opt (prod (topt t)) ->
+    admissible fs req opt /\
+    ((exists i, select fs req opt = Unique i)
+     \/ (select fs req opt = Ambiguous /\ is_known KAmbiguous fs req opt)
+     \/ (select fs req opt = NotFound /\ is_known KNotFound fs req opt)).
+Proof.
+  intros t Ht. pose proof templates_closed as H. rewrite forallb_forall in H.
+  destruct (tmpl_ok_sound specs_full t (H t Ht)) as (fs & Hfs & Hn & Hadm).
+  exists fs. split; [exact Hfs|]. split; [exact Hn|].
+  intros req opt Hr Ho. pose proof (Hadm req opt Hr Ho) as Ha. split; [exact Ha|].
+  exact (total_unambiguous_modulo_known fs Hfs req opt Ha).
+Qed.
+
 (* ------------------------------------------------------------------------------------------------------------
    Frozen witness of the defect mechanism on the pinned tree (hand-copied fragment, independent of the regenerated
    table, so it stays valid after a repair): the six `dot` rules of cola/fns.py:63-90.
